@@ -355,13 +355,12 @@ def wildcardMap (o : Order) (allSources : SrcSet) : Option (List (SrcSet × SrcS
       some (exps.foldl (fun m e =>
         if m.any (fun x => sameSet x.1 e) then m else m ++ [(e, sources)]) m)) []
 
-/-- M: `PeptidePoolSplitter.__init__`: `self.sources` from the order keys.  For a plain
-string key the code iterates over the *characters* of the string
-(`isinstance(sources, str)` tests the wrong variable). -/
+/-- M: `PeptidePoolSplitter.__init__`: `self.sources` from the order keys (after the `fix:`
+that tests `isinstance(source_group, str)`: a plain key is one source name). -/
 def initSources (o : Order) : SrcSet :=
   o.foldl (fun s kv =>
     let elems : List Src := match kv.1 with
-      | .one x => x.toList.map (fun c => String.singleton c)
+      | .one x => [x]
       | .many m => m
     (elems.filter (fun x => !isWild x)).foldl (fun s x => setInsert x s) s) []
 
